@@ -190,6 +190,11 @@ func (d *Decoder) DecodeLength() (uint64, error) {
 	if err != nil {
 		return 0, err
 	}
+	// every element of a sequence or dictionary occupies at least one byte,
+	// so a declared length larger than the remaining input is malformed
+	if length > uint64(d.buf.Len()) {
+		return 0, fmt.Errorf("declared length %d exceeds the remaining %d bytes", length, d.buf.Len())
+	}
 	cLog(Yellow, "Slice Length: %v", length)
 	return length, nil
 }
